@@ -158,6 +158,10 @@ def task_batch(task):
                 kw["time_period_output_format"] = rng.choice(["vtl", "sdmx_reporting", "sdmx_gregorian", "natural"])
             o = gen.as_op(w, kwargs=kw, output_folder=rng.random() < 0.15)
             o["sid"] = "gen:%d" % src[1]
+        elif src[0] == "pair":
+            w = gen_dag.pairwise_script(gen_dag.pairwise_space()[src[1]])
+            o = gen.as_op(w)
+            o["sid"] = "pair:%d" % src[1]
         elif src[0] == "dag":
             rng = random.Random(src[1])
             w = gen_dag.generate(rng)
@@ -205,6 +209,9 @@ def run(ctx):
     n_corpus = 250 if quick else len(cps)
     items = [("gen", rng.randrange(1 << 30)) for _ in range(n_gen // 2)]
     items += [("dag", rng.randrange(1 << 30)) for _ in range(n_gen - n_gen // 2)]
+    n_space = len(gen_dag.pairwise_space())
+    pair_idx = rng.sample(range(n_space), min(n_space, 240 if quick else 12000))
+    items += [("pair", i) for i in pair_idx]
     items += [("corpus", e) for e in rng.sample(cps, min(n_corpus, len(cps)))]
     rng.shuffle(items)
     size = 12
@@ -257,6 +264,8 @@ def run(ctx):
         "results_compared_with_unscheduled_execution": n_shadow,
         "valid_scripts_by_reference_position_kind": edge_kinds,
         "distinct_reader_profiles": len(profiles),
+        "pairwise_reader_position_space": {"size": n_space, "sampled_this_run": len(pair_idx),
+                                           "rule": "producer kind {input, result, scalar} x position of reader 1 x position of reader 2 (2 representatives per position kind) x persistence of the statements x textual order"},
         "reader_profile_rule": "per producer (input I, result R, scalar sc) the sequence of syntactic positions of its readers in creation order, e.g. 'sc:clause>direct-scalar'",
         "results_not_compared_time_typed": n_skip,
         "tasks_skipped_by_budget": getattr(ctx, "last_skipped", 0),
